@@ -175,7 +175,7 @@ def run(W, chk):
         ("not expired", [FARM_EXPIRED(False)]),
         ("lp denom", [LP_BY_PM(XP)]),
         ("attached == declared", [PredTrue("one_coin == params.farm_asset", eq_test(r"^info\.funds\[\*\]$", XP + r"\.farm_asset$"))]),
-        ("same reward denom", [PredTrue("farm denom == declared denom", eq_test(r"^Store\(FARMS\)\.farm_asset\.denom$", XP + r"\.farm_asset\.denom$"))]),
+        ("same reward denom", [PredTrue("farm denom == declared denom", eq_test(r"^Store\(FARMS\)\.farm_asset\.denom$", "(" + XP + r"\.farm_asset|^info\.funds\[\*\])\.denom$"))]),      # attached == declared is its own cut: either names the coin
         ("multiple of rate", [PredTrue("amount % rate == 0", lambda pn, pa: pn in ("eq", "is_zero") and any("rem" in ops for (o, ops) in flat_atoms(pa[0])) and
                                        origin_match(pa[0], r"emission_rate$|info\.funds\[\*\]\.amount$"))]),      # `x % rate == 0` / `(x % rate).is_zero()`
     ]
@@ -185,9 +185,13 @@ def run(W, chk):
     for e in farm_saves(A):
         v = e.extra.get("value", EMPTY)
         am = opmap(vfield(vfield(v, "farm_asset"), "amount"))
+        if XP + ".farm_asset.amount" in am and "info.funds[*].amount" not in am:
+            am["info.funds[*].amount"] = am.pop(XP + ".farm_asset.amount")
         chk.expect(am == {"Store(FARMS).farm_asset.amount": frozenset(["add"]), "info.funds[*].amount": frozenset(["add"])}, "PROV-farm-fields", "expand.amount",
                    "budget += attached amount (checked)", "expanded budget <- %s" % {k: sorted(x) for k, x in am.items()}, where(e))
         en = opmap(vfield(v, "preliminary_end_epoch"))
+        if "info.funds[*].amount" in en and XP + ".farm_asset.amount" not in en:      # the attached coin, equal to the declared one (cut above)
+            en[XP + ".farm_asset.amount"] = en.pop("info.funds[*].amount")
         want = {"Store(FARMS).preliminary_end_epoch": frozenset(["add"]), "Store(FARMS).emission_rate": frozenset(["add", "div_floor", "div:r"]),
                 XP + ".farm_asset.amount": frozenset(["add", "div_floor", "div:l"])}
         chk.expect(en == want, "PROV-farm-fields", "expand.end", "end += amount div_floor emission_rate", "end epoch <- %s" % {k: sorted(x) for k, x in en.items()}, where(e))
